@@ -542,7 +542,10 @@ func ruleAllocate(c *Ctx, prefix string, ai *allocImpl, want map[string]bool) {
 		}
 		i := out[0]
 		okIP := ipC == "(*"+ai.T.Obj().Pkg().Path()+"."+ai.T.Obj().Name()+")."+anRaw("toIP")+"($0,conv<uint32>("+i+"))" ||
-			regexp.MustCompile(`^\(\*`+reQ(ai.T.Obj().Pkg().Path()+"."+ai.T.Obj().Name())+`\)\.(`+an("toPrefix")+`|`+an("toIP")+`)(@(?:[\w$]+·)?t\d+)?\(\$0,(conv<[a-z0-9]+>\()?`+reQ(i)+`\)?\)(#0)?$`).MatchString(ipC)
+			// (a narrowing conversion of the index is not the same index: the IPv4 table is at most 2^32
+			// bits by construction, the prefix table may be larger)
+			regexp.MustCompile(`^\(\*`+reQ(ai.T.Obj().Pkg().Path()+"."+ai.T.Obj().Name())+`\)\.`+an("toIP")+`(@(?:[\w$]+·)?t\d+)?\(\$0,(conv<[a-z0-9]+>\()?`+reQ(i)+`\)?\)(#0)?$`).MatchString(ipC) ||
+			regexp.MustCompile(`^\(\*`+reQ(ai.T.Obj().Pkg().Path()+"."+ai.T.Obj().Name())+`\)\.`+an("toPrefix")+`(@(?:[\w$]+·)?t\d+)?\(\$0,(conv<(?:uint|uint64|uintptr)>\()?`+reQ(i)+`\)?\)(#0)?$`).MatchString(ipC)
 		if !okIP && len(exitBad) < 4 {
 			exitBad = append(exitBad, fmt.Sprintf("return at %s: the address returned (%s) is not the index→address conversion of the bit that was set (%s)", c.P.InstrPos(in), shortName(stripAt(ipC)), shortName(i)))
 		}
@@ -1076,6 +1079,11 @@ func ruleConvPair(c *Ctx, prefix string) {
 				break
 			}
 			if i == 0 && !e.isSuccessExit() {
+				// the conversion refuses an address only when the library's Offset does: any other
+				// refusal makes a hint (or a Free) inside the pool unusable
+				if v, _ := histFact(e.St, "nil", regexp.MustCompile(pkgA+`\.Offset(@(?:[\w$]+·)?t\d+)?\(.*\)#1$`)); v != 0 {
+					bad = fmt.Sprintf("toIndex fails at %s on a path where allocators.Offset did not report an error: addresses the library can index are refused", c.P.InstrPos(e.Ret))
+				}
 				continue
 			}
 			if i == 1 {
